@@ -326,6 +326,55 @@ proof fn lemma_same_ij_step<T: DSet>(ds: &T, i: int, j: int, d: int, e: int, e2:
     }
 //@ end
 
+// C02 "loopless ... coincide with their graph-theoretic definitions": no operation fixes a chamber.  Default method no type overrides,
+// emitted as a free function (R11); `self.indices()` / `self.elements()` are the trait's own `0..=self.dim()` / `1..=self.size()` (R10)
+pub open spec fn loop_free_row<S: DSet>(ds: &S, i: int) -> bool {
+    forall|d: int| 1 <= d <= ds.ssize() ==> #[trigger] ds.sop(i, d) != Some(d as usize)
+}
+pub open spec fn loop_free<S: DSet>(ds: &S) -> bool {
+    forall|i: int| 0 <= i <= ds.sdim() ==> #[trigger] loop_free_row(ds, i)
+}
+//@ begin src/dsets.rs :: trait DSet: Sized :: fn is_loopless | props=C02
+//@ rw R11 /fn is_loopless\(&self\)/pub fn is_loopless<S: DSet>(this: &S)/
+//@ rw R11 /\bself\b/this/
+//@ rw R16 /-> bool/-> (r: bool)/
+//@ rw R10+R14 /^([ \t]*)this\.indices\(\)\.all\(\|i\|\s*this\.elements\(\)\.all\(\|d\|\s*(.*?)\n\s*\)\n\s*\)$/\1let __r = (0..(this.dim()) + 1).all(|i: usize| -> (b: bool)\n\1{\n\1let __b = (1..(this.size()) + 1).all(|d: usize| -> (c: bool)\n\1{ \2 }\n\1);\n\1__b\n\1});\n\1__r/s
+    pub fn is_loopless<S: DSet>(this: &S) -> (r: bool)
+    requires this.wf()
+    ensures r == loop_free(this)
+    {
+        proof { this.lemma_wf(); }
+        let __r = (0..(this.dim()) + 1).all(|i: usize| -> (b: bool)
+            requires i <= this.sdim(), this.wf(), this.ssize() < usize::MAX
+            ensures b == loop_free_row(this, i as int)
+        {
+        let __b = (1..(this.size()) + 1).all(|d: usize| -> (c: bool)
+            requires this.wf()
+            ensures c == (this.sop(i as int, d as int) != Some(d))
+        { this.op(i, d) != Some(d) }
+        );
+            proof {
+                if __b {
+                    assert forall|d: int| 1 <= d <= this.ssize() implies #[trigger] this.sop(i as int, d) != Some(d as usize) by {
+                        let rg = 1..((this.ssize() + 1) as usize);
+                        assert(IteratorSpec::remaining(&rg)[d - 1] == d);
+                    }
+                }
+            }
+        __b
+        });
+        proof {
+            if __r {
+                assert forall|i: int| 0 <= i <= this.sdim() implies #[trigger] loop_free_row(this, i) by {
+                    let rg = 0..((this.sdim() + 1) as usize);
+                    assert(IteratorSpec::remaining(&rg)[i] == i);
+                }
+            }
+        }
+        __r
+    }
+//@ end
+
 // the default `m` of the trait (plain D-sets carry no degrees)
 pub open spec fn default_m(dim: int, size: int, i: int, j: int, d: int) -> Option<usize> {
     if i > dim || j > dim || d < 1 || d > size { None }
@@ -3855,10 +3904,103 @@ impl Clone for Sign {
 }
 impl Copy for Sign {}
 
+// C02 "weakly oriented": the test applied to one (index, chamber) against a given sign vector -- an i-edge between two different chambers
+// that both carry a sign must carry different signs.  Default method no type overrides, emitted as a free function (R11).
+pub open spec fn om_spec<S: DSet>(ds: &S, i: int, d: int, ori: Seq<Sign>) -> bool {
+    match ds.sop(i, d) {
+        Some(di) => di == d || ori[d] == Sign::ZERO || ori[di as int] != ori[d],
+        None => true,
+    }
+}
+//@ begin src/dsets.rs :: trait DSet: Sized :: fn orientations_match | props=C02
+//@ rw R11 /fn orientations_match\(&self, /pub fn orientations_match<S: DSet>(this: &S, /
+//@ rw R11 /\bself\b/this/
+//@ rw R16 /-> bool/-> (b: bool)/
+//@ rw R2 /\bZERO\b/Sign::ZERO/
+    pub fn orientations_match<S: DSet>(this: &S, i: usize, d: usize, ori: &Vec<Sign>) -> (b: bool)
+    requires this.wf(), ori@.len() == this.ssize() + 1
+    ensures b == om_spec(this, i as int, d as int, ori@)
+    {
+        proof { this.lemma_wf(); }
+        if let Some(di) = this.op(i, d) {
+            di == d || ori[d] == Sign::ZERO || ori[di] != ori[d]
+        } else {
+            true
+        }
+    }
+//@ end
+
+// partial_orientation (Traversal-based, outside the verifier): ASSUMED to return SOME sign vector that is a function of the D-set
+pub uninterp spec fn po_spec<T: DSet>(ds: &T) -> Seq<Sign>;
 #[verifier::external_body]
-pub fn __is_oriented<T: DSet>(ds: &T) -> (r: bool) requires ds.wf() { unimplemented!() }
-#[verifier::external_body]
-pub fn __partial_orientation<T: DSet>(ds: &T) -> (r: Vec<Sign>) requires ds.wf() ensures r@.len() == ds.ssize() + 1 { unimplemented!() }
+pub fn __partial_orientation<T: DSet>(ds: &T) -> (r: Vec<Sign>) requires ds.wf() ensures r@.len() == ds.ssize() + 1, r@ == po_spec(ds) { unimplemented!() }
+
+pub open spec fn om_row<S: DSet>(ds: &S, i: int, ori: Seq<Sign>) -> bool {
+    forall|d: int| 1 <= d <= ds.ssize() ==> #[trigger] om_spec(ds, i, d, ori)
+}
+// every edge passes the test against the partial orientation
+pub open spec fn weakly_oriented<S: DSet>(ds: &S) -> bool {
+    forall|i: int| 0 <= i <= ds.sdim() ==> #[trigger] om_row(ds, i, po_spec(ds))
+}
+//@ begin src/dsets.rs :: trait DSet: Sized :: fn is_weakly_oriented | props=C02
+//@ rw R11 /fn is_weakly_oriented\(&self\)/pub fn is_weakly_oriented<S: DSet>(this: &S)/
+//@ rw R11 /\bself\b/this/
+//@ rw R16 /-> bool/-> (r: bool)/
+//@ rw R5 /this\.partial_orientation\(\)/__partial_orientation(this)/
+//@ rw R11 /this\.orientations_match\(i, d, &ori\)/orientations_match(this, i, d, &ori)/
+//@ rw R10+R14 /^([ \t]*)\(0\.\.=this\.dim\(\)\)\.all\(\|i\|\s*\(1\.\.=this\.size\(\)\)\.all\(\|d\|\s*(.*?)\n\s*\)\n\s*\)$/\1let __r = (0..(this.dim()) + 1).all(|i: usize| -> (b: bool)\n\1{\n\1let __b = (1..(this.size()) + 1).all(|d: usize| -> (c: bool)\n\1{ \2 }\n\1);\n\1__b\n\1});\n\1__r/s
+    pub fn is_weakly_oriented<S: DSet>(this: &S) -> (r: bool)
+    requires this.wf()
+    ensures r == weakly_oriented(this)
+    {
+        proof { this.lemma_wf(); }
+        let ori = __partial_orientation(this);
+
+        let __r = (0..(this.dim()) + 1).all(|i: usize| -> (b: bool)
+            requires i <= this.sdim(), this.wf(), this.ssize() < usize::MAX, ori@ == po_spec(this), ori@.len() == this.ssize() + 1
+            ensures b == om_row(this, i as int, po_spec(this))
+        {
+        let __b = (1..(this.size()) + 1).all(|d: usize| -> (c: bool)
+            requires this.wf(), ori@ == po_spec(this), ori@.len() == this.ssize() + 1
+            ensures c == om_spec(this, i as int, d as int, po_spec(this))
+        { orientations_match(this, i, d, &ori) }
+        );
+            proof {
+                if __b {
+                    assert forall|d: int| 1 <= d <= this.ssize() implies #[trigger] om_spec(this, i as int, d, po_spec(this)) by {
+                        let rg = 1..((this.ssize() + 1) as usize);
+                        assert(IteratorSpec::remaining(&rg)[d - 1] == d);
+                    }
+                }
+            }
+        __b
+        });
+        proof {
+            if __r {
+                assert forall|i: int| 0 <= i <= this.sdim() implies #[trigger] om_row(this, i, po_spec(this)) by {
+                    let rg = 0..((this.sdim() + 1) as usize);
+                    assert(IteratorSpec::remaining(&rg)[i] == i);
+                }
+            }
+        }
+        __r
+    }
+//@ end
+
+// C02 "oriented": loopless and weakly oriented
+//@ begin src/dsets.rs :: trait DSet: Sized :: fn is_oriented | props=C02,C05
+//@ rw R11 /fn is_oriented\(&self\)/pub fn is_oriented<S: DSet>(this: &S)/
+//@ rw R11 /\bself\b/this/
+//@ rw R16 /-> bool/-> (r: bool)/
+//@ rw R11 /this\.is_loopless\(\)/is_loopless(this)/
+//@ rw R11 /this\.is_weakly_oriented\(\)/is_weakly_oriented(this)/
+    pub fn is_oriented<S: DSet>(this: &S) -> (r: bool)
+    requires this.wf()
+    ensures r == (loop_free(this) && weakly_oriented(this))
+    {
+        is_loopless(this) && is_weakly_oriented(this)
+    }
+//@ end
 
 proof fn lemma_xor1(k: usize)
     ensures (k ^ 1) ^ 1 == k, k < 2 ==> (k ^ 1) < 2, k ^ 1 != k
@@ -3877,7 +4019,7 @@ proof fn lemma_xor1_inj(a: usize, b: usize)
 
 //@ begin src/derived.rs :: - :: fn oriented_cover | props=C05
 //@ rw R16 /-> PartialDSym$/-> (res: PartialDSym)/
-//@ rw R5 /ds\.is_oriented\(\)/__is_oriented(ds)/
+//@ rw R11 /ds\.is_oriented\(\)/is_oriented(ds)/
 //@ rw R5 /ds\.partial_orientation\(\)/__partial_orientation(ds)/
 //@ rw R14 /^([ \t]*)let sheet_map = \|k, i, d\| \{$/\1let sheet_map = |k: usize, i: usize, d: usize| -> (k2: usize)\n\1{/
 pub fn oriented_cover<T: DSym>(ds: &T) -> (res: PartialDSym)
@@ -3891,7 +4033,7 @@ pub fn oriented_cover<T: DSym>(ds: &T) -> (res: PartialDSym)
         lemma_bop(ds);
         assert(ds.ssize() * (ds.sdim() + 1) <= 2 * ds.ssize() * (ds.sdim() + 1)) by(nonlinear_arith) requires ds.ssize() >= 0, ds.sdim() >= 0;
     }
-    if __is_oriented(ds) {
+    if is_oriented(ds) {
         as_partial_dsym(ds)
     } else {
         let ori = __partial_orientation(ds);
